@@ -94,35 +94,26 @@ def shifts_in(facts, fn):
 
 
 def shift_width(facts, res):
+    """C11.2 (first half) is decided by the bit-provenance run of C11.4 for parent / child code / child;
+    the level upper bound is folded concretely here: getUpperBound(l) = 2^(l*Dim)"""
+    import bitdep
     R = "C11.2.shift-width"
     for cls in ORDERINGS:
-        for name in ("getParentIndex", "getChildIndexFromParent", "childPositionFromParent", "getUpperBound"):
-            ms = [m for m in facts.methods_of(cls) if m["name"] == name]
-            if len(ms) != 1:
-                raise AnalysisBroken("%s::%s not found" % (cls, name))
-            sh = shifts_in(facts, ms[0])
-            if not sh:
-                raise AnalysisBroken("%s::%s contains no shift" % (cls, name))
-            widths = []
-            for x, amt in sh:
-                names = set(y.get("name") for y in walk(amt) if y.get("k") == "DeclRefExpr")
-                lits = [y["val"] for y in walk(amt) if y.get("k") == "IntegerLiteral"]
-                widths.append(facts.ntext(amt))
-                if "Dim" not in names:
-                    res.violation(R, tbf.rel(facts.path_of(x)), ms[0]["qname"], "%s@%d" % (name, x["l"][1]), x["l"][1],
-                                  "shift amount '%s' does not use the class's Dim: parent/child algebra would use different widths" % facts.ntext(amt))
-                elif any(v > 1 for v in lits):
-                    res.violation(R, tbf.rel(facts.path_of(x)), ms[0]["qname"], "%s@%d" % (name, x["l"][1]), x["l"][1], "shift amount '%s' mixes Dim with a literal" % facts.ntext(amt))
-            res.instance(R, "%s::%s" % (cls, name), facts.loc(ms[0]), "shift amounts %s" % widths)
-        # child index = (parent << Dim) + code  and  code = low Dim bits
-        m = [m for m in facts.methods_of(cls) if m["name"] == "getChildIndexFromParent"][0]
-        t = facts.ntext(tbf.body(m))
-        if not re.search(r"\(\w+<<Dim\)\+\w+", t):
-            res.violation(R, tbf.rel(facts.path_of(m)), m["qname"], "child-form", m["l"][1], "child index is not (parent << Dim) + code: '%s'" % t)
-        m = [m for m in facts.methods_of(cls) if m["name"] == "getParentIndex"][0]
-        t = facts.ntext(tbf.body(m))
-        if not re.search(r"return\w+>>Dim;", t):
-            res.violation(R, tbf.rel(facts.path_of(m)), m["qname"], "parent-form", m["l"][1], "parent index is not index >> Dim: '%s'" % t)
+        ms = [m for m in facts.methods_of(cls) if m["name"] == "getUpperBound" and not m.get("inst")]
+        if len(ms) != 1:
+            raise AnalysisBroken("%s::getUpperBound not found" % cls)
+        for dim in ((3,) if "Hilbert" in cls else (1, 2, 3, 4)):
+            bad = None
+            for lvl in range(0, 63 // dim + 1):
+                v = bitdep.Interp(facts, {"Dim": dim}, cls=cls).call(ms[0], [lvl])
+                if isinstance(v, bitdep.Bits):
+                    v = sum((1 << k) for k, e in enumerate(v.b) if e == 1) if all(e in (0, 1) for e in v.b) else None
+                if v != (1 << (lvl * dim)) and bad is None:
+                    bad = (lvl, v)
+            res.instance(R, "%s::getUpperBound<Dim=%d>" % (cls, dim), facts.loc(ms[0]), "folded for levels 0..%d: 2^(level*Dim)" % (63 // dim))
+            if bad:
+                res.violation(R, tbf.rel(facts.path_of(ms[0])), ms[0]["qname"], "upper-bound<Dim=%d>" % dim, ms[0]["l"][1],
+                              "upper bound of level %d folds to %r, not 2^(level*Dim) = %d: indices and their range would use different widths" % (bad[0], bad[1], 1 << (bad[0] * dim)))
 
 
 def literal_dimension(facts, res, roots_only=None):
@@ -153,7 +144,7 @@ def literal_dimension(facts, res, roots_only=None):
 
 
 LIST_BUILDERS = ["getInteractionListForIndex", "getInteractionListForBlock", "getNeighborListForIndex", "getNeighborListForBlock", "getSelfListForBlock",
-                 "getTreeCoordinate", "getNbInteractionsPerCell", "getNbNeighborsPerLeaf", "getNbChildrenPerCell", "getParentIndex", "getChildIndexFromParent", "childPositionFromParent"]
+                 "getTreeCoordinate", "getNbInteractionsPerCell", "getNbNeighborsPerLeaf", "getNbChildrenPerCell"]
 # what the per-cell and the per-group builders must share: neighbourhood limits, wrap shifts, too-close test, child loop, level guards
 SHARED = ["Limits", "periodicShift", "isTooClose", "boxLimite", "getChildIndexFromParent", "inLevel", "std::abs", "IsPeriodic", "idxChild", "Pos[idxDim]"]
 
@@ -201,7 +192,100 @@ def sibling_builders(facts, res):
                 res.violation(R + ".cell-vs-group", tbf.rel(facts.path_of(B2[k])), fb["qname"], ("extra:" + k)[:110], B2[k]["l"][1],
                               "the per-group builder %s has `%s` which the per-cell builder %s does not" % (y, k[:160], x))
             n += 1
-    res.floor(R, n, 16, "sibling comparisons")
+    res.floor(R, n, 13, "sibling comparisons")
+
+def bit_laws(facts, res):
+    """C11.4: per-bit provenance of the coordinate<->index conversions and of the parent/child algebra"""
+    import bitdep
+    from bitdep import Bits
+    R = "C11.4.bit-provenance"
+    n = 0
+
+    def one(cls, name):
+        ms = [m for m in facts.methods_of(cls) if m["name"] == name and not m.get("inst")]
+        if len(ms) != 1:
+            raise AnalysisBroken("%s::%s not found" % (cls, name))
+        return ms[0]
+
+    def exact(src, bit):
+        return (frozenset([(src, bit)]), True)
+
+    def expect(fn, key, got, want, what):
+        """got: Bits; want: list of 64 expected entries"""
+        if not isinstance(got, Bits):
+            if isinstance(got, int) and not isinstance(got, bool):
+                got = Bits.const(got)
+            else:
+                raise AnalysisBroken("%s: %s evaluates to %r in the bit-provenance run" % (fn["qname"], what, got))
+        for j in range(64):
+            if got.b[j] != want[j]:
+                res.violation(R, tbf.rel(facts.path_of(fn)), fn["qname"], key, fn["l"][1],
+                              "%s: bit %d is a %s; the index algebra needs a %s (first differing bit; holds for every input because the run is over bit provenance, not values)"
+                              % (what, j, bitdep.describe(got.b[j]), bitdep.describe(want[j])))
+                return False
+        return True
+
+    def interleave(dim, wd, src="x%d"):
+        return [exact(src % (dim - 1 - j % dim), j // dim) if j < dim * wd else 0 for j in range(64)]
+
+    for cls in ORDERINGS:
+        hil = "Hilbert" in cls
+        opaque = ("Hilbert2Morton", "Morton2Hilbert") if hil else ()
+        for dim in ((3,) if hil else (1, 2, 3, 4)):
+            wd = 63 // dim
+            consts = {"Dim": dim}
+            # encoder
+            fn = one(cls, "getIndexFromBoxPos")
+            it = bitdep.Interp(facts, consts, opaque, cls=cls)
+            out = it.call(fn, [[Bits.input("x%d" % d, wd) for d in range(dim)]])
+            key = "%s::getIndexFromBoxPos<Dim=%d>" % (cls, dim)
+            if hil:
+                calls = [c for c in it.opaque_calls if c[0] == "Morton2Hilbert"]
+                if not calls:
+                    res.violation(R, tbf.rel(facts.path_of(fn)), fn["qname"], key + ":conv", fn["l"][1], "the Hilbert encoder returns an index that never went through Morton2Hilbert while the rest of the class treats indices as Hilbert-ordered")
+                    continue
+                if len(calls) != 1:
+                    raise AnalysisBroken("%s: %d Morton2Hilbert conversions in the encoder (1 confirmed by reading)" % (key, len(calls)))
+                ok = expect(fn, key + ":ret", out, Bits.input(calls[0][1], 63).b, "returned index (must be the converted interleave, nothing else)")
+                out = calls[0][2][0]
+            ok = expect(fn, key, out, interleave(dim, wd), "interleaved index")
+            res.instance(R, key, facts.loc(fn), "bits 0..%d = interleave of %d coordinates x %d bits (dimension 0 most significant)%s; %d data-dependent loop(s) unrolled 64x, termination not decided"
+                         % (dim * wd - 1, dim, wd, ", then Morton2Hilbert" if hil else "", len(it.unrolled)))
+            n += 1
+            # decoder
+            fn = one(cls, "getBoxPosFromIndex")
+            it = bitdep.Interp(facts, consts, opaque, cls=cls)
+            out = it.call(fn, [Bits.input("m", dim * wd)])
+            key = "%s::getBoxPosFromIndex<Dim=%d>" % (cls, dim)
+            src = "m"
+            if hil:
+                calls = [c for c in it.opaque_calls if c[0] == "Hilbert2Morton"]
+                if not calls:
+                    res.violation(R, tbf.rel(facts.path_of(fn)), fn["qname"], key + ":conv", fn["l"][1], "the Hilbert decoder de-interleaves its argument without Hilbert2Morton while the encoder returns Hilbert-ordered indices")
+                    continue
+                if len(calls) != 1:
+                    raise AnalysisBroken("%s: %d Hilbert2Morton conversions in the decoder (1 confirmed by reading)" % (key, len(calls)))
+                expect(fn, key + ":arg", calls[0][2][0], Bits.input("m", dim * wd).b, "argument of Hilbert2Morton (must be the given index)")
+                src = calls[0][1]
+            if not isinstance(out, list) or len(out) != dim:
+                raise AnalysisBroken("%s: result is not an array of %d coordinates" % (key, dim))
+            for d in range(dim):
+                expect(fn, key + ":dim%d" % d, out[d], [exact(src, k * dim + dim - 1 - d) if k < wd else 0 for k in range(64)], "coordinate %d" % d)
+            res.instance(R, key, facts.loc(fn), "coordinate d bit k = index bit k*Dim+Dim-1-d for k < %d: inverse of the encoder" % wd)
+            n += 1
+            # parent / child code / child
+            fn = one(cls, "getParentIndex")
+            out = bitdep.Interp(facts, consts, cls=cls).call(fn, [Bits.input("i", 63)])
+            expect(fn, "%s::getParentIndex<Dim=%d>" % (cls, dim), out, [exact("i", j + dim) if j + dim < 63 else 0 for j in range(64)], "parent index (drop the lowest Dim bits)")
+            fn = one(cls, "childPositionFromParent")
+            out = bitdep.Interp(facts, consts, cls=cls).call(fn, [Bits.input("i", 63)])
+            expect(fn, "%s::childPositionFromParent<Dim=%d>" % (cls, dim), out, [exact("i", j) if j < dim else 0 for j in range(64)], "child code (the lowest Dim bits)")
+            fn = one(cls, "getChildIndexFromParent")
+            out = bitdep.Interp(facts, consts, cls=cls).call(fn, [Bits.input("p", 63 - dim), Bits.input("c", dim)])
+            expect(fn, "%s::getChildIndexFromParent<Dim=%d>" % (cls, dim), out, [exact("c", j) if j < dim else exact("p", j - dim) if j < 63 else 0 for j in range(64)], "child index (parent bits above the code)")
+            res.instance(R, "%s parent/child<Dim=%d>" % (cls, dim), facts.loc(fn), "parent = index>>Dim, code = low Dim bits, child = parent:code, as bit copies")
+            n += 3
+    res.floor(R, n, 25, "bit-provenance obligations")
 
 
 def run(res, tier):
@@ -213,6 +297,8 @@ def run(res, tier):
     shift_width(facts, res)
     res.rule("C11.3 sibling agreement: Morton and Hilbert list builders / coordinate clamp / parent-child algebra have equal behavioural atoms; per-cell and per-group builders share limits, wrap shifts, too-close test, child loop, level guards")
     sibling_builders(facts, res)
+    res.rule("C11.4 bit provenance (abstract interpretation, Dim = 1..4): index bit k*Dim+Dim-1-d is a copy of bit k of coordinate d and nothing else, the decoder is its inverse, parent/child-code/child are the matching bit moves (Hilbert: around its two table conversions); hence parent coordinates = child coordinates >> 1 and the child code is the octant, for every input. Termination of the data-dependent loops and the Hilbert tables are not decided")
+    bit_laws(facts, res)
     n, hits = literal_dimension(facts, res)
     res.instance("C11.2.literal-dimension", "scan", "src/", "%d shift/mask expressions examined outside ordering classes and kernels" % n)
     # positive control (expected count on a healthy tree is zero)
